@@ -267,6 +267,9 @@ mutant('D2-deleted-without-storage-reset', ['C01'], [
 mutant('D2-updated-publishes-reset', ['C01'], [
     (I, "            if created {\n                self.publish_storage_reset", "            if created || info.nonce > 0 {\n                self.publish_storage_reset"),
 ], ['|D2|'])
+mutant('D2-reset-helper-publishes-for-wrong-kind', ['C08'], [
+    ('src/incarnation_db.rs', "            LocationAndType::StorageReset(address),\n            MemoryValue::StorageReset,\n            estimate,\n            write_set,", "            LocationAndType::StorageReset(address),\n            MemoryValue::StorageReset,\n            false,\n            write_set,"),
+], ['|D2|'])
 mutant('K1-snapshot-only-code-changed', ['C01'], [
     (I, "account_snapshot.is_none_or(|basic| basic.code_hash != Some(info.code_hash));", "account_snapshot.is_some_and(|basic| basic.code_hash != Some(info.code_hash));"),
 ], ['|D2|', '|K1|'])
@@ -780,7 +783,7 @@ benign('B-helper-extracted-status-setter', ['C02', 'C05'], [
 # extraction, match <-> combinator, early returns, renames, reordered pure statements, added tracing).
 # Every property must stay silent on them, and defects seeded ON TOP of them must still be reported.
 ALLP = ['C%02d' % i for i in range(1, 18)]
-for _r in ('R1', 'R2', 'R3', 'R4', 'R5', 'R6', 'S1', 'S2', 'S3', 'S4', 'S5', 'S6', 'T3', 'T1'):
+for _r in ('R1', 'R2', 'R3', 'R4', 'R5', 'R6', 'S1', 'S2', 'S3', 'S4', 'S5', 'S6', 'T3', 'T1', 'T2'):
     benign(f'B-refactor-{_r}', ALLP, [], patch=f'sa/benign/{_r}.diff')
 
 IDB = 'src/incarnation_db.rs'
@@ -790,6 +793,15 @@ mutant_on('sa/benign/T1.diff', 'T1+storage-read-with-vanished-writer-accepted', 
 mutant_on('sa/benign/T1.diff', 'T1+beneficiary-invalid-not-a-conflict', ['C07'], [
     (S, "                if !validation.is_valid() {\n                    verdict.conflict = true;\n                }\n", "                let _ = validation.is_valid();\n"),
 ], ['|V1|'])
+mutant_on('sa/benign/T2.diff', 'T2+storage-gt-instead-of-ge', ['C08'], [
+    (IDB, "(Some(write), Some(reset_txid)) if write.txid >= reset_txid => {", "(Some(write), Some(reset_txid)) if write.txid > reset_txid => {"),
+], ['|D3|'])
+mutant_on('sa/benign/T2.diff', 'T2+estimate-flag-not-forwarded', ['C01'], [
+    (IDB, "let mut publication = Publication { estimate, write_set: &mut write_set };", "let mut publication = Publication { estimate: false, write_set: &mut write_set };"),
+], ['|D2|'])
+mutant_on('sa/benign/T2.diff', 'T2+publish-ignores-context-estimate', ['C01'], [
+    (IDB, "MemoryEntry::new(self.version.incarnation, value, out.estimate),", "MemoryEntry::new(self.version.incarnation, value, false),"),
+], ['|W1|'])
 mutant_on('sa/benign/R3.diff', 'R3+storage-gt-instead-of-ge', ['C08'], [
     (IDB, "(Some((slot_txid, value)), Some(reset_txid)) if slot_txid >= reset_txid => Ok(value),", "(Some((slot_txid, value)), Some(reset_txid)) if slot_txid > reset_txid => Ok(value),"),
 ], ['|D3|'])
